@@ -7,10 +7,9 @@ list order (`services`, `dependsOn`, `secrets`); theorems quantify over reorderi
 Error *texts* are not modelled: every `return fmt.Errorf(…)` of the Go function is one `Err` class.
 
 Quirks that are modelled because they exist in the code:
-* `newGraph` does `delete(s.DependsOn, name)` (the service's *own* name, not `dep`) while ranging
-  over `s.DependsOn`: a self-dependency that has not been reached yet is never produced
-  (Go spec, "for statements with range clause"), so whether the self edge enters the graph
-  depends on the iteration order (`edgesOf`, flag `del`);
+* `newGraph` turns an *optional* dependency on a service that is not enabled into no edge and leaves the
+  project alone (since the `fix:` commit 3143716; the earlier `delete(s.DependsOn, name)` is kept as
+  `newGraphOld` in `Neg/C10.lean`);
 * `checkConsistency` writes `s.Deploy.Replicas = s.Scale` (post state, `normalizeSvc`);
 * `network_mode: service:x` is looked up with `GetServices`, so a *disabled* `x` is an error, while a
   `depends_on` entry with `required: false` on a disabled service is accepted.
@@ -265,22 +264,22 @@ def Graph.children (g : Graph) (v : String) : List String :=
   | some cs => cs
   | none => []
 
-/-- inner loop of `newGraph` for the service `name`: `del` = `delete(s.DependsOn, name)` already happened -/
-def edgesOf (verts disabled : List String) (name : String) : Bool → List (String × Bool) → Except Err (List String)
-  | _, [] => .ok []
-  | del, (dep, req) :: rest =>
-    if del && dep == name then edgesOf verts disabled name del rest        -- removed before being reached
-    else if verts.contains dep then
-      match edgesOf verts disabled name del rest with
+/-- inner loop of `newGraph` for one service: the dependencies that become edges, or the error of the first
+required dependency that is not an enabled service -/
+def edgesOf (verts disabled : List String) : List (String × Bool) → Except Err (List String)
+  | [] => .ok []
+  | (dep, req) :: rest =>
+    if verts.contains dep then
+      match edgesOf verts disabled rest with
       | .ok es => .ok (dep :: es)
       | .error e => .error e
     else if req then .error (if disabled.contains dep then .requiredDisabled else .unknownService)
-    else edgesOf verts disabled name true rest                              -- delete(s.DependsOn, name); continue
+    else edgesOf verts disabled rest                                       -- optional, not enabled: no edge
 
 def buildGraph (verts disabled : List String) : List (String × Svc) → Except Err Graph
   | [] => .ok []
   | (n, s) :: r =>
-    match edgesOf verts disabled n false s.dependsOn with
+    match edgesOf verts disabled s.dependsOn with
     | .error e => .error e
     | .ok es =>
       match buildGraph verts disabled r with
@@ -318,28 +317,12 @@ def normalizeSvc (s : Svc) : Svc :=
   | some sc, some d => { s with deploy := some { d with replicas := some sc } }
   | _, _ => s
 
-/-- does the inner loop of `newGraph` reach `delete(s.DependsOn, name)` (on a run without error)? -/
-def deletesSelf (verts : List String) (s : Svc) : Bool :=
-  s.dependsOn.any fun d => !verts.contains d.1 && !d.2
-
-def postSvc (verts : List String) (n : String) (s : Svc) : Svc :=
-  let s := normalizeSvc s
-  if deletesSelf verts s then { s with dependsOn := s.dependsOn.filter (fun d => d.1 != n) } else s
-
-def postState (p : Proj) : Proj := { p with services := p.services.map fun e => (e.1, postSvc p.enabled e.1 e.2) }
+/-- the project as `checkConsistency` leaves it (`newGraph` does not write any more) -/
+def postState (p : Proj) : Proj := { p with services := p.services.map fun e => (e.1, normalizeSvc e.2) }
 
 /-! ## every outcome reachable under *some* iteration order (collect mode, DESIGN §2.6) -/
 
 def dedup (l : List Err) : List Err := l.foldr (fun e acc => if acc.contains e then acc else e :: acc) []
-
-/-- reorder a `depends_on` list: self entry first (`true`) or last (`false`) -/
-def selfFirst (n : String) (first : Bool) (l : List (String × Bool)) : List (String × Bool) :=
-  let self := l.filter (fun d => d.1 == n)
-  let other := l.filter (fun d => d.1 != n)
-  if first then self ++ other else other ++ self
-
-def reorderSelf (first : Bool) (p : Proj) : Proj :=
-  { p with services := p.services.map fun e => (e.1, { e.2 with dependsOn := selfFirst e.1 first e.2.dependsOn }) }
 
 /-- error classes `newGraph` can return: one per required dependency that is not an enabled service -/
 def graphErrs (p : Proj) : List Err :=
@@ -348,10 +331,11 @@ def graphErrs (p : Proj) : List Err :=
     else if d.2 then some (if p.disabled.contains d.1 then Err.requiredDisabled else Err.unknownService)
     else none
 
-/-- outcomes of `graph.CheckCycle` over all iteration orders (`none` = nil) -/
+/-- outcomes of `graph.CheckCycle` over all iteration orders (`none` = nil): the class of any required dependency
+that is not an enabled service; if there is none the outcome does not depend on the order -/
 def cycleAlts (p : Proj) : List (Option Err) :=
   match graphErrs p with
-  | [] => [checkCycleProj (reorderSelf true p), checkCycleProj (reorderSelf false p)].eraseDups
+  | [] => [checkCycleProj p]
   | es => (dedup es).map some
 
 /-- outcomes of `checkConsistency` over all iteration orders -/
